@@ -160,13 +160,17 @@ def run(ctx):
     # ---------------- sampler populations keep the requested precision
     for nsname in NS:
         for w in WN:
-            for kind in ("minipcn_smc", "importance"):
+            for kind, answers in (("minipcn_smc", None), ("importance", None), ("minipcn_smc", "other"), ("importance", "other")):
                 try:
-                    a, out_s, tgt, flow = sd.aspire_sample(kind, nsname, 2, 10, 5, width=w, sample_kwargs={"n_final_samples": 20} if kind == "minipcn_smc" else {})
+                    tgt0 = sd.Target(2, s=1.0, c=0.3, prior="normal")
+                    if answers == "other":        # the user's model answers in the OTHER width than the one requested
+                        tgt0.answers_in = "float64" if w == "float32" else "float32"
+                    a, out_s, tgt, flow = sd.aspire_sample(kind, nsname, 2, 10, 5, width=w, target=tgt0,
+                                                           sample_kwargs={"n_final_samples": 20} if kind == "minipcn_smc" else {})
                 except Exception as e:
                     ctx.violation(f"sampler-run:{kind}:{nsname}:{w}:{type(e).__name__}", f"{kind} run in {nsname}/{w} raised {e!r}", {"kind": kind, "ns": nsname, "w": w})
                     continue
-                ctx.count(("sampler", kind, nsname, w), True, kind="sampler-dtype")
+                ctx.count(("sampler", kind, nsname, w, answers), True, kind="sampler-dtype" + ("/model-answers-in-other-width" if answers else ""))
                 pops = [("returned", out_s)]
                 if kind == "minipcn_smc":
                     pops += [(f"history[{i}]", p) for i, p in enumerate(a.sampler.history.sample_history)]
@@ -175,5 +179,5 @@ def run(ctx):
                         arr = getattr(p, fname, None)
                         if arr is not None and nsutil.dtype_name(arr.dtype) != w:
                             ctx.violation(f"sampler-precision:{kind}:{where.split('[')[0]}:{fname}", f"{kind} run requested {w} in {nsname}: {where}.{fname} is {arr.dtype}",
-                                          {"kind": kind, "ns": nsname, "w": w, "where": where})
+                                          {"kind": kind, "ns": nsname, "w": w, "where": where, "model_answers_in": tgt0.answers_in})
                             break
